@@ -876,6 +876,7 @@ func (g *FuncGen) execFor(x *ast.ForStmt, st *State) Flow {
 		g.assume(head, g.frameFormula(head, k))
 	}
 	g.assumeInvariants(head, ls, bodyPos, itOf(head))
+	g.ioLoopAssume(head)
 	if f := autoInv(head); f != "" {
 		g.assume(head, f)
 	}
@@ -899,6 +900,7 @@ func (g *FuncGen) execFor(x *ast.ForStmt, st *State) Flow {
 			g.oblige(back, fmt.Sprintf("frame-keep/loop%d", ord), k, nil, g.frameFormula(back, k), x.Pos(), k+" unchanged on objects existing at entry")
 		}
 		g.checkInvariants(back, ls, ord, "inv-keep", bodyPos, itOf(back))
+		g.ioLoopKeep(back, ord, bodyPos)
 		if f := autoInv(back); f != "" {
 			g.oblige(back, fmt.Sprintf("inv-keep/loop%d", ord), "counter-range", nil, f, bodyPos, "0 <= counter <= bound (counting loop)")
 		}
@@ -954,6 +956,7 @@ func (g *FuncGen) execRange(x *ast.RangeStmt, st *State) Flow {
 	g.assume(head, fmt.Sprintf("(and (<= 0 %s) (<= %s %s))", k, k, lenT))
 	extra := map[string]Val{"it": kv}
 	g.assumeInvariants(head, ls, bodyPos, extra)
+	g.ioLoopAssume(head)
 	bodySt := g.newPC(head, fmt.Sprintf("(< %s %s)", k, lenT))
 	exitSt := g.newPC(head, fmt.Sprintf("(>= %s %s)", k, lenT))
 	// bind key / value
@@ -1007,6 +1010,7 @@ func (g *FuncGen) execRange(x *ast.RangeStmt, st *State) Flow {
 		}
 		next := Val{fmt.Sprintf("(+ %s 1)", k), types.Typ[types.Int], "Int"}
 		g.checkInvariants(back, ls, ord, "inv-keep", bodyPos, map[string]Val{"it": next})
+		g.ioLoopKeep(back, ord, bodyPos)
 	}
 	// range loops over slices and maps terminate by construction
 	return Flow{next: g.merge(append([]*State{exitSt}, fl.brk...))}
@@ -1181,4 +1185,30 @@ func (g *FuncGen) countingLoop(x *ast.ForStmt) (types.Object, ast.Expr) {
 		return nil, nil
 	}
 	return obj, cond.Y
+}
+
+// Loops of a function that reports I/O failures (genfunc.go, ioReporting): no failure is pending at the loop head - an
+// iteration in which a file-system modification fails must leave the function with an error, not go round again.
+// Assumed at the head after the havoc, checked on the back edge.
+func (g *FuncGen) ioLoopAssume(head *State) {
+	if len(g.inlineStack) > 0 || !ioReporting(g.F) || g.entry == nil {
+		return
+	}
+	e, ok := g.entry.heap["$iofail"]
+	if !ok {
+		return
+	}
+	g.assume(head, fmt.Sprintf("(=> %s %s)", g.ghostGet(head, "$iofail"), e))
+}
+
+func (g *FuncGen) ioLoopKeep(back *State, ord int, pos token.Pos) {
+	if len(g.inlineStack) > 0 || !ioReporting(g.F) || g.entry == nil || back == nil {
+		return
+	}
+	e, ok := g.entry.heap["$iofail"]
+	if !ok {
+		return
+	}
+	g.oblige(back, fmt.Sprintf("iofail-keep/loop%d", ord), "", nil, fmt.Sprintf("(=> %s %s)", g.ghostGet(back, "$iofail"), e), pos,
+		"no failed file-system modification is pending when the loop goes round again")
 }
